@@ -311,10 +311,12 @@ def r_flow_parse(ctx) -> RuleResult:
         for n in own_walk(m.node):
             if isinstance(n, ast.Attribute) and isinstance(n.value, ast.Name) and n.value.id == "self" and n.attr in fields:
                 uses[n.attr].append((n, m))
-    bond_field = next((k for k in fields if "bond" in k), None)
-    attr_field = next((k for k in fields if "attr" in k), None)
+    from .readers import listener_index_fields
+    kinds_ = listener_index_fields(ctx, lis)
+    bond_field = next((k for k, v in kinds_.items() if v == "pairs" and k in fields), None)
+    attr_field = next((k for k, v in kinds_.items() if v == "keys" and k in fields), None)
     if bond_field is None or attr_field is None:
-        raise AnalysisError("R-FLOW-PARSE: listener no longer keeps bonds / node attributes in fields named so")
+        raise AnalysisError("R-FLOW-PARSE: cannot find the listener fields that collect bonds / node attributes")
     # ---- bonds: appended as pairs; read only by (a) plain iteration that validates, (b) comprehension producing dict keys / a set
     unclassified = []
 
@@ -444,8 +446,11 @@ def r_dupattr(ctx) -> RuleResult:
             lis = ci
     if lis is None:
         raise AnalysisError("listener implementation vanished")
+    from .readers import listener_index_fields
+    _attr_fields = {k for k, v in listener_index_fields(ctx, lis).items() if v == "keys"}
     adders = [m for m in lis.methods.values() if any(isinstance(x, ast.Attribute) and x.attr in ("setdefault",) for x in ast.walk(m.node))
-              or any(isinstance(x, ast.Subscript) and isinstance(x.ctx, ast.Store) and "attr" in norm(x.value) for x in ast.walk(m.node))]
+              or any(isinstance(x, ast.Subscript) and isinstance(x.ctx, ast.Store) and any(isinstance(z, ast.Attribute) and isinstance(z.value, ast.Name) and z.value.id == "self"
+                                                                                                 and z.attr in _attr_fields for z in ast.walk(x.value)) for x in ast.walk(m.node))]
     adders = [m for m in adders if not m.name.startswith(("enter", "exit")) and m.name != "to_graph"] or adders
     if not adders:
         raise AnalysisError("R-DUPATTR: no method stores node attributes")
